@@ -742,17 +742,12 @@ def oracle_c18_walks(op, world, ctx, out, live, reference, det, kwargs):
         return
     det = dict(det, k=k, fast=bool(kwargs.get("is_faster")))
     if fn_name == "encode":
-        if ctx.fresh:
-            # shuffling must not change whether encoding works at all: same call without the table, fresh process
-            plain = dict(kwargs)
-            plain["shuffles"] = None
-            ensure_zygote()
-            ref2 = ZYGOTE.evaluate({"fn": "encode", "kwargs": pickle.dumps(plain, protocol=4), "rng_seed": None,
-                                    "budget": BUDGET.get("encode", DEFAULT_BUDGET)})["norm"]
-            if ref2[0] != live[0]:
-                return ctx.fail("shuffles-keep-walks", "encode with a permutation table %s, without the table it %s" %
-                                ("returned" if live[0] == "returned" else "failed (%s %s)" % (live[1], live[2][:80]),
-                                 "returned" if ref2[0] == "returned" else "failed (%s)" % ref2[1]), **det)
+        fast_blocked = bool(kwargs.get("is_faster")) and M.degree_multiset(rows)[3] > 0   # fast mode has no radix 3
+        if not fast_blocked and start in M.safe_starts(rows) and out.kind != "returned":
+            # from this start vertex every walk stays inside the graph and reaches a branching vertex, so encoding
+            # terminates whatever arcs the digits select: a table that is a permutation per row cannot change that
+            return ctx.fail("shuffles-keep-walks", "encode with a permutation table failed (%s %s) from a start vertex "
+                            "from which every message can be encoded" % (live[1], (live[2] or "")[:80]), **det)
         if out.kind != "returned":
             st.vacuous += 1
         else:
